@@ -3,7 +3,7 @@
    s = |visited|, a = #{t in visited : t anticommutes with W}.  Fuel exhaustion returns None and is excluded by the
    statements.  Proved for every n.  The level-by-level BFS of graph complexity (`levels`) labels every vertex of the
    same orbit with its shortest-path distance from V, each vertex once (Theory/LevelsT.v). *)
-From PauLie Require Import Pauli Sym ClT ClSym Orbit OrbitT LevelsT.
+From PauLie Require Import Pauli Sym ClT ClSym Orbit OrbitT LevelsT OtocLoopT.
 
 (* the visited set IS the orbit of V under repeated commutation with members of G, each element once *)
 Theorem C15_bfs_is_orbit : forall G v fuel vis, bfs G fuel [v] [] = Some vis ->
@@ -27,6 +27,15 @@ Print Assumptions C15_range.
 Theorem C15_fixed : forall G v vis fuel, (forall g, In g G -> anti v g = false) -> bfs G fuel [v] [] = Some vis -> vis = [v].
 Proof. exact orbit_fixed. Qed.
 Print Assumptions C15_fixed.
+
+(* the OTOC is total: on every collection of strings of one length the visited-set loop terminates within the fuel the model
+   gives it (the potential |queue| + (|G|+1)(4^n - |visited|) decreases at every iteration), the orbit has at least one element
+   and 0 <= a <= s — so "1 - 2a/s" is defined for every input and the statements above that start from `bfs ... = Some vis`
+   apply to every input *)
+Theorem C15_otoc_total : forall n G v w, (forall g, In g G -> length g = n) -> length v = n -> length w = n ->
+  exists a s, otoc_counts n G v w = Some (a, s) /\ (0 < s)%nat /\ (a <= s)%nat.
+Proof. exact otoc_counts_total. Qed.
+Print Assumptions C15_otoc_total.
 
 (* the orbit (hence OTOC and the vertex set of graph complexity) depends only on the generated algebra *)
 Theorem C15_generating_set_independent : forall (G H : list P) v t,
